@@ -235,6 +235,8 @@ type Discharged struct {
 }
 
 // dischargeAll solves every obligation of a result in parallel.
+var skipObligation func(name string) bool
+
 func dischargeAll(results []*Result, outDir string, timeoutS int, workers int) map[*Obligation]*Discharged {
 	os.MkdirAll(outDir, 0o755)
 	type job struct {
@@ -273,6 +275,12 @@ func dischargeAll(results []*Result, outDir string, timeoutS int, workers int) m
 				file := filepath.Join(outDir, fmt.Sprintf("%04d_%s.smt2", j.idx, sanitize(j.o.Name)))
 				os.WriteFile(file, []byte(text), 0o644)
 				var res SolveResult
+				if skipObligation != nil && skipObligation(j.o.Name) {
+					mu.Lock()
+					out[j.o] = &Discharged{Obl: j.o, Res: SolveResult{Status: "skipped"}, File: file, Size: len(text)}
+					mu.Unlock()
+					continue
+				}
 				if itext != "" {
 					ifile := strings.TrimSuffix(file, ".smt2") + ".inst.smt2"
 					os.WriteFile(ifile, []byte(itext), 0o644)
